@@ -259,6 +259,13 @@ func declLists() []cItem {
 	for _, v := range c08Customs {
 		r = append(r, customItem(v, ""), customItem(v, ";"), gCat(customItem(v, ";"), declItem(c08Decls[0], "")))
 	}
+	// comments between declarations are dropped, wherever they stand relative to the semicolons and empty declarations
+	cm := cItem{src: "/*c*/"}
+	for i, d := range c08Decls[:6] {
+		d2 := c08Decls[i+6]
+		r = append(r, gCat(declItem(d, ";"), cm, cItem{src: ";"}, declItem(d2, "")), gCat(cm, cItem{src: ";"}, declItem(d, "")), gCat(declItem(d, ";"), cm, declItem(d2, ";")), gCat(cm, declItem(d, ";"), cm),
+			gCat(declItem(d, ";"), cItem{src: " "}, cm, cItem{src: " ;"}, cm, cm, cItem{src: ";;"}, declItem(d2, ";"), cm, cItem{src: ";"}), gCat(cm, cm, cItem{src: ";"}, cm, declItem(d, "")))
+	}
 	return r
 }
 
